@@ -2,7 +2,7 @@
 # tools/run_mutants.sh [Cxx ...] -- runs every demonstration patch (mutants/ and seeded/) against its property's quick check
 # and writes mutants/RESULTS.tsv : property <tab> patch <tab> exit <tab> first violation key
 cd /verif
-props=${@:-$(ls mutants | grep '^C')}
+props=${@:-$(ls mutants | grep "^C" | tr "\n" " ")}
 for p in $props; do
   for m in mutants/$p/*.diff; do
     [ -f "$m" ] || continue
